@@ -368,6 +368,13 @@ def history(sub: Ctx, seed: int, h: int, fixture):
             tail += [["addtable", None, 2, 2], rng.choice(grow[:2])]
         script = script + tail
     queried = rng.random() < 0.5
+    if fixture and script and not structural and rng.random() < 0.35:
+        # aimed at the write-back of sizes next to borders that came with the file: only sizes of the FIRST rows / columns are
+        # set through the API, nothing is read and no border is touched before the save
+        script = [["rowh", r, rng.randint(30, 90)] for r in range(min(nr, rng.choice([1, 1, 2])))]
+        if rng.random() < 0.4:
+            script += [["colw", 0, rng.randint(60, 200)]]
+        queried = False
     ncycles = rng.choice([1, 1, 2, 3]) if not fixture else rng.choice([1, 2])
     inp = {"seed": seed, "history": h, **spec, "table": list(tpos), "script": script, "queried_before_save": queried,
            "cycles": ncycles}
